@@ -11,13 +11,20 @@ Lemma miss_no_origin q k refs i :
   req_only_if_cached (parse_cc (q_hdr q)) = true -> NoOrigin (handle_cache_miss q k refs i).
 Proof. intros H; unfold handle_cache_miss; rewrite H; constructor. Qed.
 
+Lemma decide_hit_oic q stored now :
+  req_only_if_cached (parse_cc (q_hdr q)) = true ->
+  decide_hit q stored now = DServe \/ decide_hit q stored now = D504.
+Proof.
+  intros H; unfold decide_hit; rewrite H.
+  destruct (hit_must_validate _ _ _); [right; reflexivity|].
+  rewrite Bool.orb_true_r; left; reflexivity.
+Qed.
+
 Lemma hit_no_origin q stored k refs i :
   req_only_if_cached (parse_cc (q_hdr q)) = true -> NoOrigin (handle_cache_hit q stored k refs i).
 Proof.
-  intros H; unfold handle_cache_hit; constructor; intros now; cbv zeta; rewrite H.
-  match goal with |- NoOrigin (if ?c then _ else _) => destruct c end.
-  - constructor.
-  - rewrite Bool.orb_true_r; constructor.
+  intros H; unfold handle_cache_hit; constructor; intros now; cbv zeta.
+  destruct (decide_hit_oic q stored now H) as [E|E]; rewrite E; constructor.
 Qed.
 
 Theorem C18_no_origin : forall q,
@@ -46,10 +53,8 @@ Proof.
   assert (Hmiss : forall k refs i, Leaves (fun out => exists r, out = OResp r) (handle_cache_miss q k refs i)).
   { intros; unfold handle_cache_miss; rewrite H; constructor; eauto. }
   assert (Hhit : forall st k refs i, Leaves (fun out => exists r, out = OResp r) (handle_cache_hit q st k refs i)).
-  { intros; unfold handle_cache_hit; constructor; intros now; cbv zeta; rewrite H.
-    match goal with |- Leaves _ (if ?c then _ else _) => destruct c end.
-    - constructor; eauto.
-    - rewrite Bool.orb_true_r; constructor; unfold serve_from_cache; eauto. }
+  { intros; unfold handle_cache_hit; constructor; intros now; cbv zeta.
+    destruct (decide_hit_oic q st now H) as [E|E]; rewrite E; constructor; unfold serve_from_cache; eauto. }
   constructor; intros ans; destruct (option_map drop_nil_refs ans) as [[|r l]|]; auto.
   destruct (has_nil_ref (r :: l)); [constructor|].
   destruct (vary_headers_match _ _) as [[sorted [i|]]|]; auto; [|constructor].
